@@ -48,7 +48,7 @@ def make(rnd, k, foreign=.5, share=.5):
         mine = rnd.sample(pool, rnd.randint(1, len(pool))) if i == 0 or rnd.random() < share else []
         if not mine: mine = [rnd.choice(pool)]
         build, j = [], 0
-        tags = iter(range(10 * (i + 1), 10 * (i + 1) + 9))
+        tags = iter([10 * (i + 1) + t for t in range(9)] + [100 * (i + 1) + t for t in range(90)])
         while j < len(mine):
             r = rnd.random()
             if shared_chains and i > 0 and r < .35:
